@@ -89,7 +89,12 @@ class Collector:
                                               rule.startswith(o.rule + "."))
                    for o in self.obs):
                 continue
-            if n == 0:
+            if n == 0 and any(o.rule == "E-ANCHOR" for o in self.obs) and \
+                    any(o.status == OK and o.nontrivial for o in self.obs):
+                # the rule family's anchor is gone (said so, UNDECIDED) while
+                # other rules of the property still decided something
+                self.low.append((rule, n, minimum))
+            elif n == 0:
                 bad.append("%s: %d obligations < floor %d" % (rule, n, minimum))
             elif n < minimum:
                 # the rule family still found constructs to decide, but fewer
@@ -141,7 +146,11 @@ def finish(col, tier, seed, t0, level_text, technique, extra_cov=None):
                   % (prop, b))
         return 2
 
+    printed = set()
     for o, k in known_hits:
+        if o.key in printed:        # one line per listed finding
+            continue
+        printed.add(o.key)
         print("KNOWN-FINDING: property=%s %s [%s at %s: %s]"
               % (prop, k.get("what", o.detail), o.rule, o.site, o.construct))
     for o in undec:
